@@ -222,7 +222,7 @@ def pair_sx(tag, a, b):
     return [tag, holder_sx(c, a), holder_sx(c, b)]
 
 
-def apply_edit(h, at, op):
+def apply_edit(h, at, op, reindex=True):
     """one public mutator on the at-th element (document order) of the holder"""
     AHP = lib()
     es = elems(root_of(h))
@@ -246,7 +246,7 @@ def apply_edit(h, at, op):
     elif name == 'removeChild':
         if op[1] < len(e.children):
             e.removeChild(e.children[op[1]])
-        if is_parser(h) and hasattr(h, 'reindex'):
+        if reindex and is_parser(h) and hasattr(h, 'reindex'):
             h.reindex()             # the documented duty after removing elements from an indexed document
     else:
         raise ValueError(name)
